@@ -24,6 +24,7 @@
 //  Includes
 // ---------------------------------------------------------------------------
 #include <xercesc/internal/DGXMLScanner.hpp>
+#include <xercesc/validators/DTD/XMLDTDDescriptionImpl.hpp>
 #include <xercesc/util/Janitor.hpp>
 #include <xercesc/util/RuntimeException.hpp>
 #include <xercesc/util/UnexpectedEOFException.hpp>
@@ -2431,8 +2432,22 @@ void DGXMLScanner::scanReset(const InputSource& src)
     fGrammarResolver->cacheGrammarFromParse(fToCacheGrammar);
     fGrammarResolver->useCachedGrammarInParse(fUseCachedGrammar);
 
-    fDTDGrammar = new (fGrammarPoolMemoryManager) DTDGrammar(fGrammarPoolMemoryManager);
-    fGrammarResolver->putGrammar(fDTDGrammar);
+    //  Reuse the per-document DTD grammar the resolver still holds (it can be
+    //  in the grammar pool when grammars are cached from the parse); putting a
+    //  second grammar under the same key would leave one of them owned twice.
+    {
+        XMLDTDDescriptionImpl   theDTDDescription(XMLUni::fgDTDEntityString, fMemoryManager);
+        fDTDGrammar = (DTDGrammar*) fGrammarResolver->getGrammar(&theDTDDescription);
+    }
+
+    if (!fDTDGrammar) {
+
+        fDTDGrammar = new (fGrammarPoolMemoryManager) DTDGrammar(fGrammarPoolMemoryManager);
+        fGrammarResolver->putGrammar(fDTDGrammar);
+    }
+    else
+        fDTDGrammar->reset();
+
     fGrammar = fDTDGrammar;
     fRootGrammar = 0;
     fValidator->setGrammar(fGrammar);
